@@ -220,6 +220,7 @@ def main():
                                                             n=(len(x) if k == 'write' else (role(x, sc) if k == 'rename' else 0))), obs={})) + '\n')
                         out.write(json.dumps(dict(call=dict(op='wsafe'), obs={})) + '\n')
                     obs = dict(raised=r.get('raised', ''), ret=bool(r.get('ret', False)), n_events=len(evs), payload_len=total,
+                               n_renames=sum(1 for k, f, x in evs if k == 'rename'),
                                final=jdata(after.get('data', {}).get(sid)), expect_new=jdata(expect_new), first=first)
                     out.write(json.dumps(dict(call=dict(op='wend', sid=sid, first=first), obs=obs)) + '\n')
                 else:
